@@ -13,6 +13,15 @@ ASSUMPTIONS = [
     'callees are used through their contracts only; numpy / pandas / neurodsp behave as their assumed contracts say',
 ]
 
+EXTERNAL = {
+    'filter': 'neurodsp.filt.filter_signal / the band-passed signal: enters only through the uninterpreted predicate osc3 '
+              '("at least three full oscillations inside the boundary") assumed at the top of the call chain',
+    'amp': 'neurodsp.timefrequency.amp_by_time: uninterpreted function of (signal, fs, band, n_cycles), assumed even in the sign of the signal',
+    'dual': 'neurodsp.burst.detect_bursts_dual_threshold: uninterpreted function of all its arguments, result has len(sig)',
+    'rank': 'pandas Series.rank(): uninterpreted (average rank, nan stays nan); cross-checked against an independent reference by the bounded jobs',
+    'mean': 'numpy mean / diff / slicing / comparison of arrays inside reductions: opaque sequence algebra (same expression => same value)',
+}
+
 PROPS = {}
 
 
@@ -20,15 +29,87 @@ def prop(pid, **kw):
     PROPS[pid] = kw
 
 
+F = 'bycycle.features.'
+CF = F + 'features.compute_features'
+
+prop('C01',
+     level='other',
+     units=[CF, F + 'shape.compute_shape_features', F + 'cyclepoints.compute_cyclepoints',
+            'bycycle.burst.cycle.detect_bursts_cycles', 'bycycle.utils.dataframes.drop_samples_df'],
+     jobs=['pipeline:C01'],
+     unit_jobs={},
+     trusted=[EXTERNAL['filter']],
+     explanation='Proved (unbounded, for every signal satisfying osc3, every option combination in the typed cases): '
+                 'compute_features / compute_shape_features / compute_cyclepoints return a table of >= 1 rows whose sample '
+                 'columns satisfy the row, boundary, midpoint and tiling invariant, for both centrings, with and without '
+                 'sample columns; no exception other than the documented ValueErrors (incl. the read-only-view and '
+                 'n_seconds paths). ASSUMED, not yet proved: the contracts of find_extrema (strict alternation inside the '
+                 'boundary, equal counts) and find_zerox (one midpoint per flank, inside its flank) - their bodies are '
+                 'covered by the bounded corpus job only. Bounded: armed corpus (pipeline:C01).')
+
+prop('C04',
+     level='other',
+     units=[F + 'shape.compute_durations', F + 'shape.compute_extrema_voltage', F + 'shape.compute_symmetry',
+            F + 'shape.compute_band_amp', 'bycycle.utils.dataframes.rename_extrema_df',
+            F + 'shape.compute_shape_features', CF],
+     jobs=['pipeline:C04'],
+     trusted=[EXTERNAL['amp'], EXTERNAL['mean']],
+     explanation='Proved: every shape feature column of compute_shape_features and of compute_features equals its documented '
+                 'function of the row\'s cyclepoints and the ORIGINAL signal, for peak- and trough-centred tables (the '
+                 'trough case through the negate-then-rename implementation, including 1 - x symmetries as real-arithmetic '
+                 'identities), band_amp relative to the external amplitude function (assumed even in sign). '
+                 'Range facts (0 < time_rdsym < 1) are checked by the bounded corpus job.')
+
+prop('C05',
+     level='other',
+     units=[F + 'burst.compute_amp_fraction', F + 'burst.compute_amp_consistency', F + 'burst.compute_period_consistency',
+            F + 'burst.compute_monotonicity', F + 'burst.compute_burst_features', CF],
+     jobs=['burst_features_small', 'pipeline:C05'],
+     unit_jobs={F + 'burst.compute_amp_consistency': ['burst_features_small'],
+                F + 'burst.compute_period_consistency': ['burst_features_small'],
+                F + 'burst.compute_amp_fraction': ['burst_features_small']},
+     trusted=[EXTERNAL['rank'], EXTERNAL['mean']],
+     explanation='Proved over extended reals (nan / inf tags, exact arithmetic): amp_consistency and period_consistency equal '
+                 'the spec (three / two adjacent min-max ratios, nanmin, clamp at 0, nan at both ends) for both centrings and '
+                 'all directions, by loop invariants; amp_fraction = rank / n; monotonicity = mean of the two strict-step '
+                 'fractions over the inclusive flank windows (as terms of the sequence algebra). The [0,1] range clause and '
+                 'the meaning of rank / mean are covered by the bounded jobs.')
+
+prop('C06',
+     level='other',
+     units=['bycycle.burst.cycle.detect_bursts_cycles', CF],
+     lemmas=['minrun_monotone'],
+     jobs=['detect_bursts_cycles', 'pipeline:C06'],
+     unit_jobs={'bycycle.burst.cycle.detect_bursts_cycles': ['detect_bursts_cycles']},
+     explanation='Proved: detect_bursts_cycles labels exactly minrun(q, min_n_cycles) with q = strict > on all four '
+                 'thresholds, first and last cycle excluded (IEEE: nan never qualifies); compute_features routes the '
+                 'thresholds (with their defaults) unchanged; raising a threshold or min_n_cycles only removes labels '
+                 '(lemma minrun_monotone over the definition of minrun). Relative to the contract of '
+                 'check_min_burst_cycles (C08).')
+
+prop('C07',
+     level='other',
+     units=[F + 'burst.compute_burst_fraction', F + 'burst.compute_burst_features', 'bycycle.burst.amp.detect_bursts_amp', CF],
+     lemmas=['minrun_monotone'],
+     jobs=['detect_bursts_amp', 'pipeline:C07'],
+     unit_jobs={'bycycle.burst.amp.detect_bursts_amp': ['detect_bursts_amp']},
+     trusted=[EXTERNAL['dual'], EXTERNAL['mean']],
+     explanation='Proved relative to the external detector: burst_fraction[i] = mean of the detector mask over [last, next] '
+                 'inclusive with the side column chosen by centring; the detector receives min_n_cycles unless a minimum '
+                 'duration is given; is_burst = minrun(burst_fraction >= threshold, M); one and the same M (burst options, '
+                 'else thresholds, else 3) reaches the detector and the run filter, for every subset of supplied keys.')
+
 prop('C19',
      level='other',
-     units=['bycycle.group.utils.check_kwargs_shape',
-            'bycycle.burst.cycle.detect_bursts_cycles',
-            'bycycle.burst.amp.detect_bursts_amp'],
-     lemmas=[],
+     units=['bycycle.group.utils.check_kwargs_shape', 'bycycle.burst.cycle.detect_bursts_cycles',
+            'bycycle.burst.amp.detect_bursts_amp', F + 'burst.compute_burst_fraction', F + 'burst.compute_amp_consistency',
+            F + 'burst.compute_period_consistency', F + 'shape.compute_shape_features', CF],
      jobs=['kwargs_shape', 'detect_bursts_cycles', 'detect_bursts_amp'],
      unit_jobs={'bycycle.group.utils.check_kwargs_shape': ['kwargs_shape'],
                 'bycycle.burst.cycle.detect_bursts_cycles': ['detect_bursts_cycles'],
                 'bycycle.burst.amp.detect_bursts_amp': ['detect_bursts_amp']},
-     explanation='under construction',
-     )
+     explanation='Proved ("ValueError iff"): the shape/axis/option-list decision table of check_kwargs_shape for all extents; '
+                 'threshold range checks, negative min_n_cycles, reversed / negative amplitude thresholds, negative fs, unknown '
+                 'centre / burst method / direction, first_extrema override. Not yet under contract: dimensionality guards of '
+                 'the objects, plot-before-fit, axis / progress values of the group functions, first_extrema of find_extrema; '
+                 'fs == 0 is rejected only by the external filter.')
